@@ -375,7 +375,8 @@ def gen_circuit(rng, radixes, nops, depth=0, edits=True):
                 break
             cy, q, op = rng.choice(pts)
             kind = rng.choice(['pop', 'replace_same', 'replace_other',
-                               'insert', 'freeze'])
+                               'insert', 'freeze'] +
+                              (['alias'] if rng.random() < .25 else []))
             try:
                 if kind == 'pop' and len(pts) > 1:
                     c.pop((cy, q))
@@ -402,6 +403,10 @@ def gen_circuit(rng, radixes, nops, depth=0, edits=True):
                                   loc, params)
                 elif kind == 'freeze' and c.num_params > 0:
                     c.freeze_param(rng.randrange(c.num_params))
+                elif kind == 'alias':
+                    # the same Operation OBJECT a second time
+                    withp = [o for _, _, o in pts if o.num_params > 0]
+                    c.append(rng.choice(withp) if withp else op)
                 else:
                     continue
             except Exception as e:       # noqa: BLE001 - reported by the case
@@ -423,6 +428,7 @@ class Emitter:
         self.next_g = 1
         self.next_c = 1
         self.next_frozen = 1000000      # the model's id for freeze_param gates
+        self.oids: dict = {}            # id(Operation object) -> small int
         self.keep: list = []
 
     def say(self, line):
@@ -486,7 +492,8 @@ class Emitter:
         self.say(f'circ {cid} | {" ".join(map(str, c.radixes))}')
         self.say(f'cycles {cid} {c.num_cycles}')
         for (cy, _, op), g in zip(pts, gids):
-            self.say(f'add {cid} {cy} {g} | '
+            oid = self.oids.setdefault(id(op), len(self.oids) + 1)
+            self.say(f'add {cid} {cy} {g} {oid} | '
                      f'{" ".join(map(str, op.location))} | '
                      f'{" ".join(ptok(p) for p in op.params)}')
         return cid
@@ -605,28 +612,29 @@ def o_gate_grad(gate, params):
 
 
 def o_slices(c, params):
-    """id(op) -> parameter slice, params consumed in iteration order."""
+    """(cycle, id(op)) -> parameter slice, params consumed in iteration
+    order (an Operation object may sit in several cycles)."""
     sl = {}
     idx = 0
-    for op in c:
+    for cy, op in c.operations_with_cycles():
         k = len(op.params)
-        sl[id(op)] = (list(params[idx:idx + k]) if params is not None
-                      else list(op.params))
+        sl[(cy, id(op))] = (list(params[idx:idx + k]) if params is not None
+                            else list(op.params))
         idx += k
     return sl
 
 
 def o_grid_ops(c):
-    """Operations cycle by cycle, inside a cycle by smallest qudit."""
-    return [op for _, _, op in all_points(c)]
+    """(cycle, op) cycle by cycle, inside a cycle by smallest qudit."""
+    return [(cy, op) for cy, _, op in all_points(c)]
 
 
 def o_unitary(c, params=None):
     rad = list(c.radixes)
     sl = o_slices(c, params)
     u = np.identity(math.prod(rad), dtype=np.complex128)
-    for op in o_grid_ops(c):
-        m = o_gate_unitary(op.gate, sl[id(op)])
+    for cy, op in o_grid_ops(c):
+        m = o_gate_unitary(op.gate, sl[(cy, id(op))])
         u = o_embed_mul(m, list(op.location), rad, u)
     return u
 
@@ -635,8 +643,8 @@ def o_state(c, vec, params=None):
     rad = list(c.radixes)
     sl = o_slices(c, params)
     v = np.array(vec, dtype=np.complex128)
-    for op in o_grid_ops(c):
-        m = o_gate_unitary(op.gate, sl[id(op)])
+    for cy, op in o_grid_ops(c):
+        m = o_gate_unitary(op.gate, sl[(cy, id(op))])
         v = o_embed_mul(m, list(op.location), rad, v)
     return v
 
@@ -648,8 +656,8 @@ def o_grad(c, params=None):
     dim = math.prod(rad)
     sl = o_slices(c, params)
     ops = o_grid_ops(c)
-    es = [embed_dense(o_gate_unitary(op.gate, sl[id(op)]), list(op.location),
-                      rad) for op in ops]
+    es = [embed_dense(o_gate_unitary(op.gate, sl[(cy, id(op))]),
+                      list(op.location), rad) for cy, op in ops]
     lefts = [np.identity(dim, dtype=np.complex128)]
     for e in es:
         lefts.append(e @ lefts[-1])
@@ -658,13 +666,14 @@ def o_grad(c, params=None):
         rights.append(rights[-1] @ e)
     rights = rights[::-1]           # rights[j+1] = prod_{i>j} E_i
     per_op = {}
-    for j, op in enumerate(ops):
-        gs = o_gate_grad(op.gate, sl[id(op)])
-        per_op[id(op)] = [rights[j + 1] @ embed_dense(g, list(op.location), rad)
-                          @ lefts[j] for g in gs]
+    for j, (cy, op) in enumerate(ops):
+        gs = o_gate_grad(op.gate, sl[(cy, id(op))])
+        per_op[(cy, id(op))] = [
+            rights[j + 1] @ embed_dense(g, list(op.location), rad) @ lefts[j]
+            for g in gs]
     out = []
-    for op in c:
-        out.extend(per_op[id(op)])
+    for cy, op in c.operations_with_cycles():
+        out.extend(per_op[(cy, id(op))])
     return out
 
 
@@ -873,17 +882,30 @@ def circuit_case(rng, key, max_dim, lean_dim, grad_dim, do_fd,
                         + ' '.join(map(ptok, newp)) + ' | '
                         + ' '.join(map(str, rad)), 'tensors1', s2_impl,
                         'state-explicit')
-    # plain-vector in_state: radixes are inferred from the dimension
+    # plain-vector in_state: must be read with the circuit's radixes
     s3_impl = call(lambda: np.array(c.get_statevector(sv_np)))
     if s3_impl[0] == 'err' or not close(s3_impl[1], s_or):
-        uniform = all(r == 2 for r in rad) or all(r == 3 for r in rad)
         outcome = s3_impl[1] if s3_impl[0] == 'err' else 'wrong-amplitudes'
-        sig = ('statevector-plain-vector-mixed-radix:' + outcome
-               if not uniform else 'statevector-plain-vector-uniform')
-        case.problem(sig, 'get_statevector(ndarray) on a circuit with radixes '
-                     f'{rad}: {outcome} (StateVector(in_state) infers the '
-                     'radixes from the dimension instead of using the '
-                     'circuit radixes)', True)
+        case.problem('statevector-plain-vector:' + outcome,
+                     'get_statevector(ndarray) on a circuit with radixes '
+                     f'{rad}: {outcome} (a plain input vector must be '
+                     'interpreted with the circuit radixes)', True)
+    # malformed: a (normalised) vector of the wrong dimension -> ValueError
+    if rng.random() < .3:
+        bad_dim = dim + rng.choice([1, 2]) if rng.random() < .6 else \
+            max(1, dim - 1)
+        if bad_dim != dim:
+            e_bad = [Z1] + [Z0] * (bad_dim - 1)
+            r = call(lambda: np.array(c.get_statevector(exv_to_np(e_bad))))
+            if r != ('err', 'ValueError'):
+                case.problem('statevector-wrong-dimension',
+                             f'get_statevector with a vector of dimension '
+                             f'{bad_dim} on radixes {rad} gave {r[0]} '
+                             f'{r[1]!r:.40}', True)
+            if with_lean:
+                case.expect(f'state {cid} | {" ".join(map(gstr, e_bad))} | | -',
+                            'tensors1', r, 'state-baddim')
+            case.bump('state_baddim')
     if with_lean:
         case.expect(f'state {cid} | {" ".join(map(gstr, sv))} | | -',
                     'tensors1', s3_impl, 'state-plain')
@@ -978,6 +1000,14 @@ def verdict(case, name, impl, oracle):
     case.bump('oracle_' + name)
 
 
+def shared_prefix(c):
+    """'shared-operation-object:' when an Operation object occupies two grid
+    entries (parameter writes then alias), else ''."""
+    pts = all_points(c)
+    return 'shared-operation-object:' if len({id(o) for _, _, o in pts}) < \
+        len(pts) else ''
+
+
 def param_api(rng, case, c, cid, with_lean):
     steps = rng.randrange(3, 10)
     for _ in range(steps):
@@ -1030,7 +1060,8 @@ def param_api(rng, case, c, cid, with_lean):
                 want = flat_before.copy()
                 want[i] = v
                 if r[0] != 'ok' or after != want:
-                    case.problem('set_param', f'set_param({i}, v) changed the '
+                    case.problem(shared_prefix(c) + 'set_param',
+                                 f'set_param({i}, v) changed the '
                                  'flat vector other than at index i', True)
             elif r != ('err', 'IndexError') or after != flat_before:
                 case.problem('set_param-range', f'set_param({i}) out of range '
@@ -1046,7 +1077,8 @@ def param_api(rng, case, c, cid, with_lean):
             after = [float(p) for op in c for p in op.params]
             if n2 == npar:
                 if r[0] != 'ok' or after != vs:
-                    case.problem('set_params-roundtrip', 'params after '
+                    case.problem(shared_prefix(c) + 'set_params-roundtrip',
+                                 'params after '
                                  'set_params(p) is not p', True)
             elif r != ('err', 'ValueError') or after != flat_before:
                 case.problem('set_params-length', 'set_params with a wrong '
@@ -1110,6 +1142,11 @@ def iteration_queries(rng, case, c, cid, with_lean):
                 (0, 0)
         if malformed and rng.random() < .5:
             end = (ncy + rng.randrange(0, 2), rng.randrange(0, n + 1))
+        if rng.random() < .08:          # negative coordinates are points too
+            start = (rng.randrange(0, ncy + 1), -rng.randrange(1, 4))
+        if rng.random() < .06:
+            end = rng.choice([(-1, rng.randrange(0, n)),
+                              (rng.randrange(0, max(1, ncy)), -1), (-1, -2)])
         if mode == 'all':
             qor = None
             qs = list(range(n))
@@ -1408,13 +1445,40 @@ def fixed_cases(ck: Check):
     ck.count(('fixed', 'sv-4-2'))
     if not close(got, want):
         ck.violation(
-            'statevector-plain-vector-mixed-radix:wrong-amplitudes',
+            'statevector-plain-vector:wrong-amplitudes',
             'Circuit(2,[4,2]) with X on qudit 1: get_statevector(e0) returns '
             f'|{int(np.argmax(np.abs(got)))}> but get_unitary() @ e0 is '
-            f'|{int(np.argmax(np.abs(want)))}> (StateVector(in_state) infers '
-            'qubit radixes from the dimension)',
+            f'|{int(np.argmax(np.abs(want)))}> (a plain vector must be read '
+            'with the circuit radixes)',
             {'radixes': [4, 2], 'ops': [['X', [1]]], 'in_state': 'e0'}, True)
     # replay of the Lean witness theorem on the real code is the case above;
+    # the same Operation object appended twice: parameter writes alias
+    op = Operation(G.RXGate(), [0], [POOL[1][2]])
+    c = Circuit(1)
+    c.append(op)
+    c.append(op)
+    p = [POOL[2][2], POOL[3][2]]
+    u_explicit = np.array(c.get_unitary(p))
+    c.set_params(p)
+    ck.count(('fixed', 'shared-op'))
+    if [float(x) for x in c.params] != p:
+        ck.violation(
+            'shared-operation-object:set_params-roundtrip',
+            'op = Operation(RXGate(), [0], [a]); c.append(op); c.append(op); '
+            f'c.set_params([p, q]) leaves c.params = {list(c.params)} '
+            '(the one object is assigned twice)',
+            {'ops': 'same Operation object twice'}, True)
+    if not close(u_explicit, np.array(c.get_unitary())):
+        ck.violation(
+            'shared-operation-object:explicit-vs-stored',
+            'same Operation object twice: get_unitary(p) differs from '
+            'set_params(p); get_unitary()', {'ops': 'same object twice'}, True)
+    c.set_param(0, POOL[4][2])
+    if float(c.params[1]) == POOL[4][2]:
+        ck.violation(
+            'shared-operation-object:set_param',
+            'same Operation object twice: set_param(0, v) also changes '
+            'parameter 1', {'ops': 'same object twice'}, True)
     # permuted location on mixed radixes with a non-symmetric gate
     rad = [2, 3, 2]
     ex = ex_identity(6)
@@ -1481,7 +1545,7 @@ def run(ck: Check):
             for i in range(nchunks)]
     ctx = mp.get_context('fork')
     tdrv = 0.0
-    with ctx.Pool(min(16, mp.cpu_count())) as pool:
+    with ctx.Pool(min(8, mp.cpu_count())) as pool:
         for res, t in pool.imap_unordered(run_chunk, jobs):
             tdrv += t
             for r in res:
